@@ -159,11 +159,26 @@ func (v *verifAssembly) run(in verifAssemblyIn) {
 			}
 		}
 	case "actor":
+		entryActor := ""
 		for i, b := range branches {
+			if b == "entry_actor" {
+				entryActor = v.branch(base+"/"+b, person(base+"/"+b, b), in.Fault[b], v.n+i)
+			}
+		}
+		for i, b := range branches {
+			if b == "entry_actor" {
+				continue
+			}
 			target := base + "/" + b
 			doc := map[string]any{"id": v.p.URL(target), "type": "OrderedCollection", "totalItems": 1, "orderedItems": []any{
 				map[string]any{"id": v.p.URL(target + "/a1"), "type": "Create", "actor": primaryURL,
 					"object": map[string]any{"id": v.p.URL(target + "/n1"), "type": "Note", "name": "STAMPoutbox", "content": "<p>x</p>"}}}}
+			if entryActor != "" {
+				/* a boost in the outbox names an actor that has to be fetched */
+				doc["totalItems"] = 2
+				doc["orderedItems"] = append(doc["orderedItems"].([]any), map[string]any{"id": v.p.URL(target + "/a2"), "type": "Announce", "actor": entryActor,
+					"object": map[string]any{"id": v.p.URL(target + "/n2"), "type": "Note", "name": "boosted", "content": "<p>y</p>"}})
+			}
 			ref[b] = v.branch(target, doc, in.Fault[b], v.n+i)
 		}
 		primary = map[string]any{"id": primaryURL, "type": "Person", "name": "primary", "preferredUsername": "owner"}
@@ -223,12 +238,16 @@ func (v *verifAssembly) run(in verifAssemblyIn) {
 		}
 		op("text", func() { texts = append(texts, tangible.String(80), tangible.Name()) })
 		op("preview", func() { texts = append(texts, tangible.Preview(60)) })
+		childError := false
 		op("children", func() {
 			/* as ui.loadSurroundings does */
 			if children := tangible.Children(); children != nil {
 				items, _, _ := children.Harvest(4, 0)
 				for _, it := range items {
 					texts = append(texts, it.String(80))
+					if _, isFailure := it.(*Failure); isFailure {
+						childError = true
+					}
 				}
 			}
 		})
@@ -297,7 +316,12 @@ func (v *verifAssembly) run(in verifAssemblyIn) {
 					_, failed = x.target.(*Failure)
 				}
 			case *Actor:
-				failed = x.postsErr != nil
+				if b == "entry_actor" {
+					/* the entry is not the owner's in any case: it is listed as an error item */
+					failed = childError || x.postsErr != nil /* (nothing of the outbox is read when the outbox itself failed) */
+				} else {
+					failed = x.postsErr != nil
+				}
 			}
 			switch {
 			case verifContains(texts, "STAMP"+b):
